@@ -18,6 +18,7 @@ RULE = ("exhaustive part: every program 'M' + k commands over the 20 letters, k 
 ASSUMPTIONS = ["number spellings are drawn from the intersection of the SVG 1.1 and SVG 2 grammars (no '1.')",
                "arcs whose end equals the current point are excluded (constructor precondition start != end), counted as discards",
                "Arc construction itself is C04's subject: expected arcs are built with the library constructor from reference arguments"]
+RULE += ' Also: The first spelling is parsed again after an earlier result of the same string was edited in place.'   # added after the seeded-change rounds (DESIGN.md section 10)
 CONFIGS = ['scipy']
 BUDGET = {'quick': 20000, 'thorough': 400000}
 EXHAUSTIVE_NOTE = "all programs M + <=3 (quick) / <=4 (thorough) commands over 20 letters"
